@@ -4,7 +4,8 @@ Decided for the schedule / batch-composition / failed-entry part of the quantifi
 rows solved before the MCS stage with rows that reach it (ids and positions disagree), permutations,
 worker semantics, task completion orders, and job-level faults (timeout / hang of any subset of the
 3 x n (reaction, condition) search jobs) so the three condition tables contain empty entries in every
-shape. Zombie rate is 0 (a timed-out job never writes late) so the recorded tables are stable.
+shape, plus RDKit budget exhaustion (canceled FindMCS with a degraded pattern, empty/raising MCES)
+inside the jobs. Zombie rate is 0 (a timed-out job never writes late) so the recorded tables are stable.
 
 Observed through two outside taps: Balancer.columns gets 'mcs' appended; ExtractMCS.get_largest_condition
 is wrapped to record its argument tables and result.
@@ -16,7 +17,7 @@ from . import common
 NPLANS = {"quick": 150, "thorough": 3000}
 RULE = (
     "plan i = H(seed,'C10',i): 2-7 corpus reactions (1-4 reaching the MCS stage, the rest solved earlier, shuffled), swarm "
-    "batching/workers/schedule, 50% with mcs_job timeout/hang faults at rate in {10%,30%,60%} (zombie rate 0); plus enumeration "
+    "batching/workers/schedule, 60% with mcs_job timeout/hang and/or FindMCS cancel/raise, FindMCES empty/raise faults at rate in {10%,30%,60%} (zombie rate 0); plus enumeration "
     "of all 2^(3n) failed/ok patterns of the condition tables for fixed batches with n<=2 MCS rows. Non-trivial: >=1 row carries a "
     "search result and the batch holds >=2 rows; distinct by (rows in order, config, failed-job set)."
 )
@@ -34,9 +35,15 @@ def gen_plan(base_seed, i, tier):
     rng.shuffle(rows)
     cfg = common.gen_config(rng, len(rows), thresholds=(0,))
     sim = common.gen_sim(rng)
-    if rng.random() < 0.5:
+    if rng.random() < 0.6:
         rate = rng.choice([0.1, 0.3, 0.6])
-        sim["faults"] = {"rates": {"mcs_job": {"timeout": rate, "hang": rate / 3}}, "zombie_q": 0.0}
+        rates = {"mcs_job": {"timeout": rate, "hang": rate / 3}}
+        if rng.random() < 0.5:
+            # RDKit budget exhaustion / failures inside a job: entries with fewer or no patterns
+            rates = {} if rng.random() < 0.5 else rates
+            rates["fmcs"] = {"cancel": rate, "raise": rate / 4}
+            rates["fmces"] = {"empty": rate / 2, "raise": rate / 4}
+        sim["faults"] = {"rates": rates, "zombie_q": 0.0}
     return {"property": "C10", "kind": "run", "rows": rows, "config": cfg, "sim": sim, "tap": True}
 
 
